@@ -33,6 +33,7 @@ def profile(name, rng):
         if base['pool_hard'] is None and base['pool_soft'] is None and rng.random() < 0.7:
             base['pool_hard'] = 4.0
         w.update(map=0.7, imap=0.5, imap_u=0.5, scan=6, advance=6, ready=2.5, die=0.1)
+        base['p_interleave'] = 0.7
     elif name == 'c09':
         base.update(maxtasks=rng.choice([None, 1, 2, 5]), n=rng.choice([1, 2, 3, 4, 6]))
         w.update(map=1, imap=0.6, imap_u=0.6, die=1.5, supervise=5, grow=0.5, shrink=0.5)
